@@ -30,7 +30,7 @@ LEVEL_NOTE = ("PROVED for all byte strings: only the hand-written byte-level dec
               "recover(), 2 s / 64 MiB limits): everything that is a thin wrapper over encoding/asn1, encoding/pem, math/big, "
               "crypto/* - ParseCertificate(s), ParseCertificateRequest, ParseCRL/ParseDERCRL, ParsePKCS7 (+Verify/Decrypt/DecryptSM2), "
               "PKCS#8/PEM readers, ParseSm2PublicKey, pkcs12.Decode/DecodeAll/ToPEM, DecryptAsn1, SignDataToSignDigit, PublicKey.Verify, "
-              "sm4.ReadKeyFromPem - and the stdlib-derived TLS message parsers of gmtls/handshake_messages.go. The EC arithmetic "
+              "sm4.ReadKeyFromPem - and, in this check, the stdlib-derived TLS message parsers of gmtls/handshake_messages.go (their totality is proved in the C15 check, message parsers section; here they get the corpus and the structure-aware mutants). The EC arithmetic "
               "behind the sm2 gates (IsOnCurve, ScalarMult, ModSqrt) and the stdlib are modelled as returning a value or an error. "
               "Password-stretching iteration counts are the format's own parameter and are excluded (cases with an iteration count "
               "above 10^6 are classified 'excluded' when slow). Type assertions on caller-supplied key / certificate "
@@ -99,6 +99,8 @@ def predicate(f, io):
         return False, "decoder did not return within 10 s"
     if io[0] == "SLOW":
         return False, "decoder took " + " ".join(io[1:]) + " on an input of %d bytes" % (len(_input(f)) // 2)
+    if io[0] == "SUPERLINEAR":
+        return False, "decoder cost grows faster than its input (size ladder %s): %s" % (f[2], " ".join(io[1:]))
     if io[0] == "ALLOC":
         return False, "decoder allocated " + " ".join(io[1:]) + " for an input of %d bytes" % (len(_input(f)) // 2)
     return False, "unexpected driver result " + " ".join(io)
